@@ -11,6 +11,7 @@ from vlib.runner import HarnessError, Part, Violation
 import pymemcache.client.base as B
 import pymemcache.pool as P
 from pymemcache.client.base import PooledClient
+from pymemcache.exceptions import MemcacheServerError
 
 PROPERTY = "C08"
 LEVEL = "exploration"
@@ -104,6 +105,7 @@ def run_case(case):
             net = FakeNet()
             srv = McServer(clock)
             net.add_server(("mc1", 11211), srv)
+            srv.refuse[b"toolarge"] = "too-large"          # a store the server refuses (SERVER_ERROR) although the connection is fine
             pc = PooledClient(("mc1", 11211), socket_module=net, max_pool_size=max_size, lock_generator=make_lock, default_noreply=False,
                               pool_idle_timeout=case.get("idle", 0))
             pool = pc.client_pool
@@ -201,6 +203,16 @@ def run_case(case):
                                 pc.set("k", b"v")
                             elif op in ("get", "failget"):
                                 pc.get("k")
+                            elif op == "setrefused":
+                                try:
+                                    pc.set("toolarge", b"v", noreply=False)
+                                except MemcacheServerError:
+                                    pass
+                            elif op == "setmanyrefused":
+                                try:
+                                    pc.set_many({"a": b"1", "toolarge": b"2", "c": b"3"}, noreply=False)
+                                except MemcacheServerError:
+                                    pass
                             elif op == "quit":
                                 pc.quit()
                             elif op == "close":
@@ -325,6 +337,11 @@ def bounded_cases(tier, seed):
     # the pool is emptied while one thread waits for it and is used again by that thread and a third one
     confs.append({"harness": "a", "threads": [["clear"], ["gr"], ["gr"]], "max_size": 1, "idle": 0, "two_in_quick": True})
     confs.append({"harness": "a", "threads": [["clear", "gr"], ["ctx"], ["gd"]], "max_size": 1, "idle": 0})
+    # a call that fails with the server's own refusal (the connection is fine) next to an ordinary call
+    for ms in (1, 2):
+        confs.append({"harness": "b", "threads": [["setrefused"], ["set"]], "max_size": ms, "two_in_quick": ms == 1})
+        confs.append({"harness": "b", "threads": [["setmanyrefused"], ["get"]], "max_size": ms})
+    confs.append({"harness": "b", "threads": [["setrefused"], ["setmanyrefused"]], "max_size": 2})
     confs.append({"harness": "c", "threads": [["set"], ["close"]], "max_size": 2})
     confs.append({"harness": "c", "threads": [["get"], ["close"]], "max_size": 1})
     core = [("a", ["gr"], ["gr"], 1), ("a", ["gd"], ["gr"], 1), ("a", ["gr"], ["ctxfail"], 1), ("a", ["gr"], ["clear"], 1),
@@ -347,7 +364,7 @@ def bounded_cases(tier, seed):
             elif conf.get("two_in_quick"):
                 # quick tier: two pre-emptions for a few core configurations (all pairs for the object-pool harness,
                 # every first point x every 8th second point for the pooled-client harness)
-                stride = 1 if conf["harness"] == "a" else 12
+                stride = 1 if conf["harness"] == "a" else 18
                 for p1 in range(1, n):
                     for p2 in range(p1 + 1 + (p1 % stride), n, stride):
                         yield dict(base, preempt=[p1, p2])
